@@ -140,6 +140,14 @@ def statement_coverage():
         "10 A = + B", "10 A = ATN ( B ) + COS ( B ) + EXP ( B ) + LOG ( B )", "10 A = SGN ( B ) + SIN ( B ) + TAN ( B )",
         '10 ? @ 5 , "X"', "10 ? @ 5", '10 LET A$ ( 1 ) = "Y"', "10 DIM A$ ( 1 , 2 )", "10 DIM A$ ( 1 , 2 , 3 )",
         '10 LET A$ ( 1 ) = "UNCLOSED', '10 LET A$ = "UNCLOSED', "10 A = B =< C", "10 A = B => C", '10 IF A$ =< "M" THEN 10',
+        # NEXT with variable lists inside further loops, closed by name or by a bare NEXT
+        "10 FOR I = 1 TO 2 : FOR J = 1 TO 2 : FOR K = 1 TO 2 : NEXT K , J : NEXT",
+        "10 FOR I = 1 TO 2 : FOR J = 1 TO 2 : FOR K = 1 TO 2 : NEXT K , J , I",
+        "10 FOR I = 1 TO 2 : FOR J = 1 TO 2 : FOR K = 1 TO 2 : NEXT : NEXT J , I",
+        "10 FOR G = 1 TO 2 : FOR H = 1 TO 2 : FOR I = 1 TO 2 : FOR J = 1 TO 2 : NEXT J , I : NEXT : NEXT",
+        "10 FOR I = 1 TO 2\n20 FOR J = 1 TO 2\n30 NEXT J , I",
+        # repeated names in one DIM, DIM of scalars beside arrays
+        "10 DIM A$ , B , A$", "10 DIM A , A", '10 DIM A$ , B$ ( 2 ) : A$ = "X" : B$ ( 1 ) = A$',
     ]
     return progs
 
